@@ -6,6 +6,7 @@ git pull --no-edit /work/$g/verif main >/tmp/merge-$g.log 2>&1
 for f in $(git diff --name-only --diff-filter=U); do
   case "$f" in
     known_findings.json|MANIFEST.json|evidence/*) git checkout --ours -- "$f" 2>/dev/null; git add "$f";;
+    harness/Cargo.toml|harness/vf-props/Cargo.toml|harness/Cargo.lock) sed -i "/^<<<<<<< /d; /^=======$/d; /^>>>>>>> /d" "$f"; git add "$f"; echo "union-merged $f";;
     *) echo "REAL CONFLICT: $f";;
   esac
 done
